@@ -89,23 +89,47 @@ InFlight == Top("gen") % 2 = 1 \/ Top("gen") = 0 \/ Top("ver") = 0
 File(e, l, m, s, v, g, ws, d, k) ==
   [exists |-> e, len |-> l, magicOk |-> m, size |-> s, ver |-> v, gen |-> g, words |-> ws, done |-> d, k |-> k]
 
+\* the complete initial state for start file f, as a record (also used by the trace spec's Reset)
+IV(f) ==
+  [exists |-> f.exists, len |-> f.len, magicOk |-> f.magicOk, size |-> f.size,
+   hist |-> M!InitHist([x \in Locs |-> IF x = "ver" THEN f.ver ELSE IF x = "gen" THEN f.gen
+                                              ELSE f.words[LocWord(x)]]),
+   pubDone |-> f.done, wk |-> f.k,
+   wpc |-> "dead", wgen |-> 0, winc |-> 0, crashes |-> 0, g0 |-> 0,
+   wcur |-> M!One, wrel |-> [x \in Locs |-> M!One], usable |-> FALSE, wiped |-> FALSE,
+   att |-> [r \in Readers |-> FALSE], rpc |-> [r \in Readers |-> "idle"],
+   rcur |-> [r \in Readers |-> M!One], racq |-> [r \in Readers |-> M!One],
+   g1 |-> [r \in Readers |-> 0], snap |-> [r \in Readers |-> Empty], wi |-> [r \in Readers |-> 1],
+   retries |-> [r \in Readers |-> 0],
+   cacheGen |-> [r \in Readers |-> 0], cacheRec |-> [r \in Readers |-> Empty],
+   ret |-> [r \in Readers |-> Empty], retKind |-> [r \in Readers |-> "none"],
+   calls |-> [r \in Readers |-> 0], openRes |-> [r \in Readers |-> "none"],
+   quiet |-> [r \in Readers |-> FALSE], prevIdx |-> [r \in Readers |-> 0], steps |-> [r \in Readers |-> 0]]
+
 Init ==
-  /\ \E f \in StartFiles :
-       /\ exists = f.exists /\ len = f.len /\ magicOk = f.magicOk /\ size = f.size
-       /\ hist = M!InitHist([x \in Locs |-> IF x = "ver" THEN f.ver ELSE IF x = "gen" THEN f.gen
-                                                     ELSE f.words[LocWord(x)]])
-       /\ pubDone = f.done /\ wk = f.k
-  /\ wpc = "dead" /\ wgen = 0 /\ winc = 0 /\ crashes = 0 /\ g0 = 0
-  /\ wcur = M!One /\ wrel = [x \in Locs |-> M!One]
-  /\ usable = FALSE /\ wiped = FALSE
-  /\ att = [r \in Readers |-> FALSE] /\ rpc = [r \in Readers |-> "idle"]
-  /\ rcur = [r \in Readers |-> M!One] /\ racq = [r \in Readers |-> M!One]
-  /\ g1 = [r \in Readers |-> 0] /\ snap = [r \in Readers |-> Empty] /\ wi = [r \in Readers |-> 1]
-  /\ retries = [r \in Readers |-> 0]
-  /\ cacheGen = [r \in Readers |-> 0] /\ cacheRec = [r \in Readers |-> Empty]
-  /\ ret = [r \in Readers |-> Empty] /\ retKind = [r \in Readers |-> "none"]
-  /\ calls = [r \in Readers |-> 0] /\ openRes = [r \in Readers |-> "none"]
-  /\ quiet = [r \in Readers |-> FALSE] /\ prevIdx = [r \in Readers |-> 0] /\ steps = [r \in Readers |-> 0]
+  \E f \in StartFiles : LET v == IV(f) IN
+    /\ exists = v.exists /\ len = v.len /\ magicOk = v.magicOk /\ size = v.size /\ hist = v.hist
+    /\ pubDone = v.pubDone /\ wk = v.wk
+    /\ wpc = v.wpc /\ wgen = v.wgen /\ winc = v.winc /\ crashes = v.crashes /\ g0 = v.g0
+    /\ wcur = v.wcur /\ wrel = v.wrel /\ usable = v.usable /\ wiped = v.wiped
+    /\ att = v.att /\ rpc = v.rpc /\ rcur = v.rcur /\ racq = v.racq
+    /\ g1 = v.g1 /\ snap = v.snap /\ wi = v.wi /\ retries = v.retries
+    /\ cacheGen = v.cacheGen /\ cacheRec = v.cacheRec /\ ret = v.ret /\ retKind = v.retKind
+    /\ calls = v.calls /\ openRes = v.openRes
+    /\ quiet = v.quiet /\ prevIdx = v.prevIdx /\ steps = v.steps
+
+\* a whole new world (trace validation concatenates independent runs)
+ResetTo(f) ==
+  LET v == IV(f) IN
+    /\ exists' = v.exists /\ len' = v.len /\ magicOk' = v.magicOk /\ size' = v.size /\ hist' = v.hist
+    /\ pubDone' = v.pubDone /\ wk' = v.wk
+    /\ wpc' = v.wpc /\ wgen' = v.wgen /\ winc' = v.winc /\ crashes' = v.crashes /\ g0' = v.g0
+    /\ wcur' = v.wcur /\ wrel' = v.wrel /\ usable' = v.usable /\ wiped' = v.wiped
+    /\ att' = v.att /\ rpc' = v.rpc /\ rcur' = v.rcur /\ racq' = v.racq
+    /\ g1' = v.g1 /\ snap' = v.snap /\ wi' = v.wi /\ retries' = v.retries
+    /\ cacheGen' = v.cacheGen /\ cacheRec' = v.cacheRec /\ ret' = v.ret /\ retKind' = v.retKind
+    /\ calls' = v.calls /\ openRes' = v.openRes
+    /\ quiet' = v.quiet /\ prevIdx' = v.prevIdx /\ steps' = v.steps
 
 \* ------------------------------------------------------------------ ShmReader::new on the current file
 \* (reader.rs FdGuard::new, shm_header.rs ShmHeader::read / is_valid, reader.rs size check)
@@ -323,6 +347,19 @@ RG2I(r, i) ==
   /\ Step(r)
   /\ UNCHANGED <<att, snap, calls, openRes, pubDone, quiet, prevIdx>> /\ WU
 RG2(r) == \E i \in 1..Len(hist["gen"]) : RG2I(r, i)
+
+\* stutter compression for traces: n consecutive failing iterations of the retry loop while the
+\* writer is stalled in the middle of an update (generation odd, hence never adopted as first_gen)
+RSpin(r, n) ==
+  /\ SC /\ rpc[r] = "rd" /\ wi[r] = 1 /\ n \in 1..retries[r]
+  /\ Top("gen") % 2 = 1
+  /\ retries' = [retries EXCEPT ![r] = @ - n]
+  /\ steps' = [steps EXCEPT ![r] = @ + n * (W + 1)]
+  /\ snap' = [snap EXCEPT ![r] = [i \in Words |-> Top(WL(i))]]
+  /\ IF retries[r] - n > 0
+     THEN UNCHANGED <<rpc, retKind>>
+     ELSE rpc' = [rpc EXCEPT ![r] = "done"] /\ retKind' = [retKind EXCEPT ![r] = "error"]
+  /\ UNCHANGED <<att, rcur, racq, g1, wi, cacheGen, cacheRec, ret, calls, openRes, pubDone, quiet, prevIdx>> /\ WU
 
 \* the call has returned to its caller
 RDone(r) ==
